@@ -3,7 +3,7 @@
    core/numba_kernels.py, api/fmm/helpers.py and the operator factories on every run. *)
 From Coq Require Import Reals String List.
 From BVgen Require Import NumbaKernels Dispatch.
-From BV Require Import Kernels.KernelTactics Kernels.DispatchModel Kernels.C05Lemmas Kernels.SmallK.
+From BV Require Import Kernels.KernelTactics Kernels.DispatchModel Kernels.C05Lemmas Kernels.SmallK Kernels.SmallKComplex.
 Import ListNotations.
 Open Scope R_scope.
 Open Scope string_scope.
@@ -124,3 +124,19 @@ Proof.
          (helmholtz_dl_small_real_k x0 x1 x2 y0 y1 y2 nx0 nx1 nx2 ny0 ny1 ny2 H))).
 Qed.
 Print Assumptions C05_small_k_bounds_partial.
+
+(* General complex wavenumber k = kr + i ki with |k| r <= 1 (r = |x - y|): the single-layer bound of the property,
+   |K_helm - K_lap - i k/(4 pi)| <= |k|^2 r/(4 pi), squared moduli, for all x <> y.  Proof: |e^z - 1 - z| <= |z|^2 for |z| <= 1
+   by comparing second derivatives along the ray t z (theories/Kernels/SmallKComplex.v), no complex analysis needed.
+   The double-layer / adjoint bounds for complex k and the lift to matrix entries remain search-only. *)
+Theorem C05_small_k_complex_single_layer :
+  forall x0 x1 x2 y0 y1 y2 nx0 nx1 nx2 ny0 ny1 ny2 kr ki p q : R, (x0, x1, x2) <> (y0, y1, y2) ->
+  let r := sqrt (r2 x0 x1 x2 y0 y1 y2) in
+  (kr * kr + ki * ki) * (r * r) <= 1 ->
+  let re := helmholtz_single_layer_regular_re x0 x1 x2 y0 y1 y2 nx0 nx1 nx2 ny0 ny1 ny2 kr ki in
+  let im := helmholtz_single_layer_regular_im x0 x1 x2 y0 y1 y2 nx0 nx1 nx2 ny0 ny1 ny2 kr ki in
+  let l := laplace_single_layer_regular_re x0 x1 x2 y0 y1 y2 nx0 nx1 nx2 ny0 ny1 ny2 p q in
+  (re - l - (- ki) / (4 * PI)) * (re - l - (- ki) / (4 * PI)) + (im - kr / (4 * PI)) * (im - kr / (4 * PI))
+  <= ((kr * kr + ki * ki) * r / (4 * PI)) * ((kr * kr + ki * ki) * r / (4 * PI)).
+Proof. exact helmholtz_sl_small_complex_k. Qed.
+Print Assumptions C05_small_k_complex_single_layer.
